@@ -40,6 +40,8 @@ class Cfg:
     warmup: bool = False  # with a configuration route: the DAG may have been called once before it is reconfigured
     profiling: bool = False  # also explore cfg.TAWAZI_PROFILE_ALL_NODES = True
     mc_fixed: int = 0  # 0: symbolic
+    # fixed shapes instead of every shape on N nodes: each shape lists the indices of the dependencies of node i
+    fixed_shapes: Tuple[Tuple[Tuple[int, ...], ...], ...] = ()
     distinct_cp: bool = False  # assume pairwise distinct compound priorities; the C06 monitor is then strict
     debug_leaf: bool = False  # one leaf may be a debug node, RUN_DEBUG_NODES on; the executed set is read off the executor's graph
     monitors: Tuple[str, ...] = ("C02", "C03", "C04", "C05", "C08", "C09", "C14", "C17", "C01")
@@ -326,9 +328,12 @@ def run_sched(cfg: Cfg, c: Ctx) -> Any:
     flavour = cfg.flavours[c.choose(len(cfg.flavours), "flavour")] if len(cfg.flavours) > 1 else cfg.flavours
     # ---- shape
     deps: Dict[str, List[str]] = {l: [] for l in labels}
+    fixed = None
+    if cfg.fixed_shapes:
+        fixed = cfg.fixed_shapes[c.choose(len(cfg.fixed_shapes), "shape")] if len(cfg.fixed_shapes) > 1 else cfg.fixed_shapes[0]
     for i in range(N):
         for j in range(i):
-            if c.choose(2, "edge"):
+            if (j in fixed[i]) if fixed is not None else c.choose(2, "edge"):
                 deps[labels[i]].append(labels[j])
     act: Dict[str, str] = {}
     act_indexed = False
